@@ -30,6 +30,18 @@ CLAIMED = {
             "3/C13"),
 }
 
+CLAIMED.update({
+    "C14": ("Proof that Task.TempDir() is a single path segment without '/', starts with the temp prefix and is at most 255 bytes for every task (all names, paths, params, tags), and a structural proof obligation (go/ssa scan, re-run on every check) that TempDir and everything it calls is deterministic: no map range, select, channel operation, time or randomness on the way to the result; the three sorted-keys helpers are proved to return the strictly sorted list of the map's keys (unique).",
+            "Assumed: SHA-1/hex/ToLower/regexp library contracts (length, alphabet), sort.Strings sorts in place, the task's identity fields are not written after NewTask. Injectivity of the name over task identities does NOT hold (finding F6: pieces are concatenated without separators) and the preimage contract is not yet under proof; both are listed in DESIGN.md.",
+            "3/C14"),
+    "C15": ("Proof of the placeholder expansion of formatCommand for every pattern, port map and value: at the single substitution site each port type (o, os, i, joined i, p, t) gets exactly the documented replacement (temp path re-encoded, FIFO path, input path with ../ prefix unless basename, joined sub-stream paths in order, parameter/tag value), a missing value never reaches the substitution (Fail), all occurrences are replaced, and placeholders are parsed as name|modifier...; proof that applyPathModifiers applies the documented meaning of each documented modifier, one per iteration, left to right (loop step contract), with the regular-expression case analysis proved as lemmas.",
+            "Assumed: library contracts of regexp (per pattern literal: capture groups of the two modifier patterns, basename/dirname replacement), strings.Replace/Split/Join; MatchString on literal patterns is interpreted by the SMT theory of regular expressions; modifiers outside the documented grammar (e.g. '%s/a/b/') are outside the step contract. Port discovery (initPortsFromCmdPattern) and SetOut patterns are not yet under contract.",
+            "3/C15"),
+    "C20": ("Proof that mergeStringAuditInfoMaps returns the union, that extractAuditInfosByID lists the root, is keyed by record ID and is closed under Upstream (hence lists every node of the tree), and that sortAuditInfosByStartTime returns a permutation of the records (every record listed, nothing else, none twice) with a comparison function that orders by start time then ID.",
+            "Assumed: sort.SliceStable permutes in place and orders by the given less function; rendering through text/template and executing the generated Bash script are outside this technique (not applicable clauses). The tie-collapse defect F7 was repaired (fix: commit) and is recorded as fixed.",
+            "3/C20"),
+})
+
 NA = {
     "C12": "data-race freedom is a relation between two goroutines' accesses; the VC generator verifies one goroutine at a time and has no permission/ownership logic (DESIGN.md section 5)",
 }
